@@ -169,6 +169,16 @@ std::string CBlockFileInfo::ToString() const
 }
 } // namespace kernel
 
+#ifdef BITCOIN_VERIF_HOOKS
+namespace verif {
+//! verification hook H2: floor of the automatic prune target and the allocation buffer used by
+//! BlockManager::FindFilesToPrune (defaults = production constants), so that automatic pruning can be
+//! reached with -fastprune sized block files in tests.
+uint64_t g_min_prune_target{MIN_DISK_SPACE_FOR_BLOCK_FILES};
+uint64_t g_prune_buffer{node::BLOCKFILE_CHUNK_SIZE + node::UNDOFILE_CHUNK_SIZE};
+} // namespace verif
+#endif
+
 namespace node {
 
 bool CBlockIndexWorkComparator::operator()(const CBlockIndex* pa, const CBlockIndex* pb) const
@@ -344,8 +354,12 @@ void BlockManager::FindFilesToPrune(
     // block storage will be reserved for the historical chainstate, and the
     // other half will be reserved for the most-work chainstate.
     const int num_chainstates{chainman.HistoricalChainstate() ? 2 : 1};
+#ifdef BITCOIN_VERIF_HOOKS
+    const auto target = std::max(verif::g_min_prune_target, GetPruneTarget() / num_chainstates);
+#else
     const auto target = std::max(
         MIN_DISK_SPACE_FOR_BLOCK_FILES, GetPruneTarget() / num_chainstates);
+#endif
     const uint64_t target_sync_height = chainman.m_best_header->nHeight;
 
     if (chain.m_chain.Height() < 0 || target == 0) {
@@ -361,7 +375,11 @@ void BlockManager::FindFilesToPrune(
     // We don't check to prune until after we've allocated new space for files
     // So we should leave a buffer under our target to account for another allocation
     // before the next pruning.
+#ifdef BITCOIN_VERIF_HOOKS
+    uint64_t nBuffer = verif::g_prune_buffer;
+#else
     uint64_t nBuffer = BLOCKFILE_CHUNK_SIZE + UNDOFILE_CHUNK_SIZE;
+#endif
     uint64_t nBytesToPrune;
     int count = 0;
 
